@@ -295,7 +295,10 @@ pub fn ir_from_json(j: &J) -> Result<IRNode, String> {
             let (lk, rk) = (usizes(&j["lk"]), usizes(&j["rk"]));
             let lw = l.output_schema().len();
             let rw = r.output_schema().len();
-            let w = if lk.is_empty() && rk.is_empty() { lw + rw } else { lw + rw.saturating_sub(rk.len()) };
+            let mut distinct_rk = rk.clone();
+            distinct_rk.sort_unstable();
+            distinct_rk.dedup();
+            let w = if lk.is_empty() && rk.is_empty() { lw + rw } else { lw + rw.saturating_sub(distinct_rk.len()) };
             Ok(IRNode::Join { left: l, right: r, left_keys: lk, right_keys: rk, output_schema: schema_or(j, w) })
         }
         "Distinct" => Ok(IRNode::Distinct { input: bx("input")? }),
